@@ -10,7 +10,7 @@ PROPERTY_GROUPS = {
     'C11': ['playready'],
     'C12': ['mps'],
     'C13': ['httprange'],
-    'C14': ['events'],
+    'C14': ['events', 'scte35'],
     'C16': ['events', 'bufreader', 'httprange', 'rep', 'timing', 'mps'],
     'C19': ['dt'],
     'C20': ['bufreader'],
